@@ -105,6 +105,16 @@ pub fn run(tier: Tier, seed: u64) -> i32 {
         }
         r => r,
     });
+    if !ctx.stopped() {
+        let wide = CaseParams { circ: CircParams::wide(2, 4), all_scheds: false, caps: vec![0], tmp: false };
+        prop_search(&ctx, "c05wide", tier.pick(24, 300), || gen_case(wide.clone()), |c| match test_case(c) {
+            Err(f) if f.signature.starts_with("INFRA") => {
+                ctx.infra(f.msg.clone());
+                Ok(CaseInfo::default())
+            }
+            r => r,
+        });
+    }
     ctx.finish()
 }
 
